@@ -83,8 +83,7 @@ def run(R):
         i = out.index("fatal error:")
         R.oracle_failure("abort:" + out[i:i + 60].split("\n")[0], "the Go runtime aborted the process during concurrent table operations",
                          dict(seed=R.seed, report=out[i:i + 4000]))
-    elif rc not in (0, 66) and not nraces:
-        R.oracle_failure("harness-failed:" + str(rc), "the concurrency harness failed (panic, deadlock watchdog or timeout)", dict(seed=R.seed, output=out[-4000:]))
+    harness_failed = rc not in (0, 66) and not nraces and "fatal error:" not in out
     text = open(trace, errors="replace").read() if os.path.exists(trace) else ""
     if os.path.exists(trace) and not os.environ.get("VERIF_KEEP"):
         os.remove(trace)
@@ -110,6 +109,8 @@ def run(R):
             R.proof_problems.append("conc runner could not parse: " + l[:200])
     if "DONE" not in rout:
         R.proof_problems.append("conc runner did not finish: " + rout[-300:])
+    if harness_failed and "ANOMALY" not in rout:
+        R.oracle_failure("harness-failed:" + str(rc), "the concurrency harness failed (panic, deadlock watchdog or timeout)", dict(seed=R.seed, output=out[-4000:]))
     # self-test of the history checker: stored bad histories must be rejected, stored good ones accepted
     import glob
     for p in sorted(glob.glob(os.path.join(vlib.VERIF, "corpus", "C16", "*.hist"))):
